@@ -1,21 +1,656 @@
-From RV Require Import Base.Bytes Base.BytesP Types.KeyTypes.
+(* Proofs about the C15 model (Types/KeyTypes.v). *)
+From RV Require Import Base.Bytes Base.BytesP.
+From RV.Types Require Import Utf8 Utf8P KeyTypes.
 Open Scope N_scope.
 
-Lemma roundtrip t v : has_type t v -> decode t (encode t v) = Some v.
+(* ================================================================ induction on kty (nested lists) *)
+Section KtyInd.
+  Variable P : kty -> Prop.
+  Hypothesis HUnit : P TUnit.
+  Hypothesis HBool : P TBool.
+  Hypothesis HChar : P TChar.
+  Hypothesis HU : forall w, P (TU w).
+  Hypothesis HI : forall w, P (TI w).
+  Hypothesis HStr : P TStr.
+  Hypothesis HBytes : P TBytes.
+  Hypothesis HFixed : forall n, P (TFixedBytes n).
+  Hypothesis HOpt : forall t, P t -> P (TOpt t).
+  Hypothesis HArr : forall n t, P t -> P (TArr n t).
+  Hypothesis HTup : forall ts, Forall P ts -> P (TTup ts).
+  Fixpoint kty_ind2 (t : kty) : P t :=
+    match t with
+    | TUnit => HUnit | TBool => HBool | TChar => HChar
+    | TU w => HU w | TI w => HI w | TStr => HStr | TBytes => HBytes
+    | TFixedBytes n => HFixed n
+    | TOpt t' => HOpt t' (kty_ind2 t')
+    | TArr n t' => HArr n t' (kty_ind2 t')
+    | TTup ts => HTup ts ((fix go (l : list kty) : Forall P l :=
+                            match l with
+                            | [] => Forall_nil P
+                            | x :: r => Forall_cons x (kty_ind2 x) (go r)
+                            end) ts)
+    end.
+End KtyInd.
+
+(* ================================================================ generic list helpers *)
+
+Lemma blen_app a b : blen (a ++ b) = blen a + blen b.
+Proof. unfold blen. rewrite app_length. lia. Qed.
+
+Lemma blen_nat b : N.to_nat (blen b) = length b.
+Proof. unfold blen. lia. Qed.
+
+Lemma opt_all_map_some {A B} (f : A -> option B) (g : B -> A) l :
+  (forall x, In x l -> f (g x) = Some x) -> opt_all (map f (map g l)) = Some l.
 Proof.
-  destruct t, v; cbn [has_type]; try tauto; intros H.
-  - unfold decode, encode. rewrite le_encode_length. cbn [Nat.eqb].
-    rewrite le_decode_encode; [reflexivity|]. exact H.
+  induction l as [|x l IH]; intros H; cbn; [reflexivity|].
+  rewrite H by (now left). rewrite IH; [reflexivity|]. intros y Hy. apply H. now right.
 Qed.
 
-Lemma compare_is_value_order t a b :
-  has_type t a -> has_type t b -> kcompare t (encode t a) (encode t b) = vcompare t a b.
+Lemma length_concat_const (es : list bytes) w :
+  Forall (fun e => length e = w) es -> length (concat es) = (w * length es)%nat.
 Proof.
-  destruct t, a, b; cbn [has_type]; try tauto; intros Ha Hb; unfold kcompare, encode, vcompare.
-  rewrite !le_decode_encode; auto.
+  induction 1 as [|e es He _ IH]; cbn; [lia|]. rewrite app_length, IH, He. lia.
 Qed.
 
-(* bytes separator *)
+Lemma firstn_len_app {A} n (a b : list A) : length a = n -> firstn n (a ++ b) = a.
+Proof. intros <-. rewrite firstn_app, Nat.sub_diag, firstn_all. cbn. apply app_nil_r. Qed.
+Lemma skipn_len_app {A} n (a b : list A) : length a = n -> skipn n (a ++ b) = b.
+Proof. intros <-. rewrite skipn_app, Nat.sub_diag, skipn_all. reflexivity. Qed.
+
+Lemma chunks_concat es w rest :
+  Forall (fun e => length e = w) es -> chunks (length es) w (concat es ++ rest) = es.
+Proof.
+  induction 1 as [|e es He _ IH]; cbn [length chunks concat]; [reflexivity|].
+  rewrite <- app_assoc. rewrite firstn_len_app, skipn_len_app by assumption. now rewrite IH.
+Qed.
+
+(* ================================================================ varint *)
+
+Lemma le_decode_encode' w n : n < 256 ^ N.of_nat w -> le_decode (le_encode w n) = n.
+Proof. apply le_decode_encode. Qed.
+
+Lemma varint_roundtrip n rest : n < 4294967296 ->
+  decode_varint_len (encode_varint_len n ++ rest) = Some (n, rest).
+Proof.
+  intros Hn. unfold encode_varint_len.
+  destruct (n <? 254) eqn:E1; [|destruct (n <=? 65535) eqn:E2].
+  - cbn. now rewrite E1.
+  - apply N.ltb_ge in E1. apply N.leb_le in E2.
+    cbn [app decode_varint_len]. cbn [N.ltb N.compare Pos.compare Pos.compare_cont N.eqb Pos.eqb].
+    rewrite app_length, le_encode_length. cbn [Nat.leb Nat.add].
+    rewrite firstn_len_app, skipn_len_app by apply le_encode_length.
+    rewrite le_decode_encode; [reflexivity|]. cbn. lia.
+  - apply N.ltb_ge in E1. apply N.leb_gt in E2.
+    cbn [app decode_varint_len]. cbn [N.ltb N.compare Pos.compare Pos.compare_cont N.eqb Pos.eqb].
+    rewrite app_length, le_encode_length. cbn [Nat.leb Nat.add].
+    rewrite firstn_len_app, skipn_len_app by apply le_encode_length.
+    rewrite le_decode_encode; [reflexivity|]. cbn. lia.
+Qed.
+
+(* ================================================================ arrays of variable width elements *)
+
+Fixpoint ends_from (start : N) (es : list bytes) : list N :=
+  match es with
+  | [] => []
+  | e :: r => (start + blen e) :: ends_from (start + blen e) r
+  end.
+
+Lemma arr_offsets_length start es : length (arr_offsets start es) = (4 * length es)%nat.
+Proof.
+  revert start; induction es as [|e es IH]; intros start; cbn [arr_offsets length]; [reflexivity|].
+  rewrite app_length, le_encode_length, IH. lia.
+Qed.
+
+Lemma arr_ends_offsets es start rest : start + blen (concat es) < 4294967296 ->
+  arr_ends (length es) (arr_offsets start es ++ rest) = ends_from start es.
+Proof.
+  revert start; induction es as [|e es IH]; intros start Hb; cbn [arr_offsets length arr_ends ends_from concat]; [reflexivity|].
+  cbn [concat] in Hb. rewrite blen_app in Hb.
+  rewrite <- app_assoc. rewrite firstn_len_app, skipn_len_app by apply le_encode_length.
+  rewrite le_decode_encode by (cbn; lia). f_equal. apply IH. lia.
+Qed.
+
+Lemma arr_slices_ok pre es :
+  arr_slices (pre ++ concat es) (blen pre) (ends_from (blen pre) es) = Some es.
+Proof.
+  revert pre; induction es as [|e es IH]; intros pre; cbn [ends_from arr_slices concat].
+  - rewrite app_nil_r, N.eqb_refl. reflexivity.
+  - replace ((blen pre <=? blen pre + blen e) && (blen pre + blen e <=? blen (pre ++ e ++ concat es)))%bool with true.
+    2:{ symmetry. apply andb_true_iff. split; apply N.leb_le; rewrite ?blen_app; lia. }
+    replace (N.to_nat (blen pre + blen e - blen pre)) with (length e) by (unfold blen; lia).
+    rewrite blen_nat. rewrite skipn_len_app, firstn_len_app by reflexivity.
+    rewrite app_assoc, <- blen_app, IH. reflexivity.
+Qed.
+
+Lemma arr_split_assemble es : size_ok (arr_assemble es) = true ->
+  arr_split (length es) (arr_assemble es) = Some es.
+Proof.
+  unfold size_ok, arr_assemble, arr_split. intros Hs. apply N.ltb_lt in Hs.
+  rewrite blen_app in Hs.
+  assert (Hl : blen (arr_offsets (4 * N.of_nat (length es)) es) = 4 * N.of_nat (length es))
+    by (unfold blen; rewrite arr_offsets_length; lia).
+  rewrite Hl in Hs.
+  replace (Nat.leb (4 * length es) _) with true
+    by (symmetry; apply Nat.leb_le; rewrite app_length, arr_offsets_length; lia).
+  rewrite arr_ends_offsets by lia.
+  rewrite <- Hl at 2 3. apply arr_slices_ok.
+Qed.
+
+Lemma arr_assemble_length es : length (arr_assemble es) = (4 * length es + length (concat es))%nat.
+Proof. unfold arr_assemble. now rewrite app_length, arr_offsets_length. Qed.
+
+(* ================================================================ tuples *)
+
+Definition fits (fw : option nat) (e : bytes) : Prop :=
+  match fw with Some w => length e = w | None => True end.
+
+Lemma tup_lens_header fws es rest :
+  Forall2 fits fws es ->
+  blen (concat (removelast es)) <= blen rest -> blen rest < 4294967296 ->
+  tup_lens fws (tup_header fws es ++ rest) = Some (map (@length _) (removelast es), rest).
+Proof.
+  intros HF. revert rest. induction HF as [|fw e fws es Hfe HF IH]; intros rest Hb1 Hb2; [reflexivity|].
+  cbn [tup_lens tup_header].
+  destruct fws as [|fw2 fws].
+  - inversion HF; subst. reflexivity.
+  - destruct es as [|e2 es]; [inversion HF|].
+    set (fws' := fw2 :: fws) in *. set (es' := e2 :: es) in *.
+    change (removelast (e :: es')) with (e :: removelast es') in *. cbn [map].
+    cbn [concat] in Hb1. rewrite blen_app in Hb1.
+    destruct fw as [w|].
+    + cbn [app] in *. rewrite IH by lia. now rewrite Hfe.
+    + rewrite <- app_assoc. rewrite varint_roundtrip by lia.
+      replace (blen e <=? blen (tup_header fws' es' ++ rest)) with true
+        by (symmetry; apply N.leb_le; rewrite blen_app; lia).
+      rewrite IH by lia. now rewrite blen_nat.
+Qed.
+
+Lemma take_seq_concat es : es <> [] ->
+  take_seq (map (@length _) (removelast es)) (concat es) = Some es.
+Proof.
+  induction es as [|e es IH]; intros Hne; [congruence|].
+  destruct es as [|e2 es].
+  - cbn. now rewrite app_nil_r.
+  - change (removelast (e :: e2 :: es)) with (e :: removelast (e2 :: es)).
+    change (concat (e :: e2 :: es)) with (e ++ concat (e2 :: es)).
+    set (es' := e2 :: es) in *.
+    cbn [map take_seq].
+    replace (Nat.leb (length e) (length (e ++ concat es'))) with true
+      by (symmetry; apply Nat.leb_le; rewrite app_length; lia).
+    rewrite firstn_len_app, skipn_len_app by reflexivity.
+    rewrite IH by (subst es'; discriminate). reflexivity.
+Qed.
+
+Lemma blen_concat_removelast (es : list bytes) : blen (concat (removelast es)) <= blen (concat es).
+Proof.
+  induction es as [|e es IH]; [cbn; lia|].
+  destruct es as [|e2 es]; [cbn; lia|].
+  change (removelast (e :: e2 :: es)) with (e :: removelast (e2 :: es)).
+  change (concat (e :: e2 :: es)) with (e ++ concat (e2 :: es)).
+  change (concat (e :: removelast (e2 :: es))) with (e ++ concat (removelast (e2 :: es))).
+  rewrite !blen_app. lia.
+Qed.
+
+Lemma tup_split_ok fws es :
+  Forall2 fits fws es -> es <> [] ->
+  size_ok (tup_header fws es ++ concat es) = true ->
+  tup_split fws (tup_header fws es ++ concat es) = Some es.
+Proof.
+  intros HF Hne Hs. unfold size_ok in Hs. apply N.ltb_lt in Hs. rewrite blen_app in Hs.
+  unfold tup_split. rewrite tup_lens_header; auto.
+  - now apply take_seq_concat.
+  - apply blen_concat_removelast.
+  - lia.
+Qed.
+
+(* ================================================================ typing: inversion *)
+
+Lemma zipw_wt_Forall2 ts vs :
+  length vs = length ts -> forallb (fun b : bool => b) (zipw wt ts vs) = true -> Forall2 has_type ts vs.
+Proof.
+  revert vs; induction ts as [|t ts IH]; intros [|v vs]; cbn; try discriminate; intros Hl H.
+  - constructor.
+  - apply andb_true_iff in H as [H1 H2]. constructor; [exact H1|]. apply IH; auto.
+Qed.
+
+Lemma wt_tup_inv ts vs : has_type (TTup ts) (VList vs) ->
+  Forall2 has_type ts vs /\ size_ok (encode (TTup ts) (VList vs)) = true.
+Proof.
+  unfold has_type. cbn [wt]. intros H.
+  apply andb_true_iff in H as [H H3]. apply andb_true_iff in H as [H1 H2].
+  apply Nat.eqb_eq in H1. split; [|exact H3]. now apply zipw_wt_Forall2.
+Qed.
+
+Lemma wt_arr_inv n t vs : has_type (TArr n t) (VList vs) ->
+  length vs = n /\ Forall (has_type t) vs /\ size_ok (encode (TArr n t) (VList vs)) = true.
+Proof.
+  unfold has_type. cbn [wt]. intros H.
+  apply andb_true_iff in H as [H H3]. apply andb_true_iff in H as [H1 H2].
+  apply Nat.eqb_eq in H1. repeat split; auto.
+  apply Forall_forall. now apply forallb_forall.
+Qed.
+
+Lemma Forall2_length' {A B} (R : A -> B -> Prop) l1 l2 : Forall2 R l1 l2 -> length l1 = length l2.
+Proof. induction 1; cbn; auto. Qed.
+
+Lemma zipw_length {A B C} (f : A -> B -> C) l1 l2 : length l1 = length l2 -> length (zipw f l1 l2) = length l1.
+Proof. revert l2; induction l1 as [|a l1 IH]; intros [|b l2]; cbn; auto. Qed.
+
+(* ================================================================ fixed width encodings have that width *)
+
+Lemma sum_widths_fits fws es w :
+  sum_widths fws = Some w -> Forall2 fits fws es -> tup_header fws es = [] /\ length (concat es) = w.
+Proof.
+  intros Hs HF. revert w Hs. induction HF as [|fw e fws es Hfe HF IH]; intros w Hs.
+  - cbn in Hs. injection Hs as <-. now split.
+  - cbn [sum_widths] in Hs. destruct fw as [w1|]; [|discriminate].
+    destruct (sum_widths fws) as [w2|] eqn:E; [|discriminate]. cbn in Hs. injection Hs as <-.
+    destruct (IH w2 eq_refl) as [IH1 IH2]. cbn [fits] in Hfe.
+    split.
+    + cbn [tup_header]. destruct fws; [reflexivity|]. now rewrite IH1.
+    + cbn [concat]. rewrite app_length. lia.
+Qed.
+
+Definition fixed_len_ok (t : kty) : Prop :=
+  forall v w, has_type t v -> fixed_width t = Some w -> length (encode t v) = w.
+
+Lemma Forall2_fits ts vs :
+  Forall fixed_len_ok ts -> Forall2 has_type ts vs ->
+  Forall2 fits (map fixed_width ts) (zipw encode ts vs).
+Proof.
+  intros HP HF. induction HF as [|t v ts vs Htv HF IH]; cbn; constructor.
+  - inversion HP; subst. unfold fits. destruct (fixed_width t) eqn:E; auto.
+  - inversion HP; subst. auto.
+Qed.
+
+Lemma repeat_length' {A} (x : A) n : length (repeat x n) = n.
+Proof. apply repeat_length. Qed.
+
+Lemma encode_fixed_len t : fixed_len_ok t.
+Proof.
+  induction t using kty_ind2; intros v w0 Hv Hw; unfold has_type in Hv;
+    destruct v; cbn [wt] in Hv; try discriminate; cbn [fixed_width] in Hw; try discriminate;
+    try (injection Hw as <-); cbn [encode].
+  - reflexivity.
+  - reflexivity.
+  - apply le_encode_length.
+  - apply le_encode_length.
+  - apply le_encode_length.
+  - apply andb_true_iff in Hv as [_ Hv]. now apply Nat.eqb_eq in Hv.
+  - destruct (fixed_width t) as [w1|] eqn:E; [|discriminate]. cbn in Hw. injection Hw as <-.
+    cbn [length]. now rewrite repeat_length.
+  - destruct (fixed_width t) as [w1|] eqn:E; [|discriminate]. cbn in Hw. injection Hw as <-.
+    cbn [length]. f_equal. now apply IHt.
+  - destruct (wt_arr_inv _ _ _ Hv) as (Hl & HF & _).
+    destruct (fixed_width t) as [w1|] eqn:E; [|discriminate]. cbn in Hw. injection Hw as <-.
+    rewrite (length_concat_const _ w1).
+    + now rewrite map_length, Hl.
+    + apply Forall_map. eapply Forall_impl; [|exact HF]. intros x Hx. now apply IHt.
+  - destruct (wt_tup_inv _ _ Hv) as (HF & _).
+    pose proof (Forall2_fits _ _ H HF) as Hfits.
+    destruct (sum_widths_fits _ _ _ Hw Hfits) as [E1 E2]. now rewrite E1.
+Qed.
+(* ================================================================ signed integers *)
+
+Lemma int_mod_half w : (0 < w)%nat -> int_mod w = 2 * int_half w.
+Proof.
+  unfold int_half, int_mod. destruct w as [|w]; [lia|]. intros _.
+  rewrite Nat2N.inj_succ, N.pow_succ_r'.
+  replace (256 * 256 ^ N.of_nat w) with ((128 * 256 ^ N.of_nat w) * 2) by lia.
+  rewrite N.div_mul by lia. lia.
+Qed.
+
+Lemma int_half_0 : int_half 0 = 0.
+Proof. reflexivity. Qed.
+
+Lemma signed_roundtrip w z :
+  (- Z.of_N (int_half w) <= z < Z.of_N (int_half w))%Z ->
+  Z.to_N (z mod Z.of_N (int_mod w)) < int_mod w /\
+  to_signed w (Z.to_N (z mod Z.of_N (int_mod w))) = z.
+Proof.
+  intros Hz. destruct w as [|w]; [rewrite int_half_0 in Hz; lia|].
+  pose proof (int_mod_half (S w) ltac:(lia)) as HM.
+  set (M := int_mod (S w)) in *. set (H := int_half (S w)) in *.
+  unfold to_signed. fold M H.
+  destruct (Z_lt_le_dec z 0) as [Hneg|Hpos].
+  - assert (E : (z mod Z.of_N M = z + Z.of_N M)%Z).
+    { symmetry. apply Z.mod_unique with (q := (-1)%Z); lia. }
+    rewrite E. split; [lia|].
+    replace (Z.to_N (z + Z.of_N M) <? H) with false by (symmetry; apply N.ltb_ge; lia). lia.
+  - rewrite Z.mod_small by lia. split; [lia|].
+    replace (Z.to_N z <? H) with true by (symmetry; apply N.ltb_lt; lia). lia.
+Qed.
+
+(* ================================================================ roundtrip *)
+
+Definition roundtrip_ok (t : kty) : Prop := forall v, has_type t v -> decode t (encode t v) = Some v.
+
+Lemma bytes_eqb_refl p : bytes_eqb p p = true.
+Proof. unfold bytes_eqb. now rewrite lex_cmp_refl. Qed.
+
+Lemma opt_all_zipw_roundtrip ts vs :
+  Forall roundtrip_ok ts -> Forall2 has_type ts vs ->
+  opt_all (zipw decode ts (zipw encode ts vs)) = Some vs.
+Proof.
+  intros HP HF. induction HF as [|t v ts vs Htv HF IH]; cbn; [reflexivity|].
+  inversion HP; subst. rewrite H1 by assumption. rewrite IH by assumption. reflexivity.
+Qed.
+
+Lemma wf_tup_inv ts : wf_ty (TTup ts) = true -> ts <> [] /\ Forall (fun t => wf_ty t = true) ts.
+Proof.
+  cbn [wf_ty]. intros H. apply andb_true_iff in H as [H H2]. apply andb_true_iff in H as [H0 H1].
+  split.
+  - destruct ts; [discriminate|discriminate].
+  - apply Forall_forall. now apply forallb_forall.
+Qed.
+
+Lemma roundtrip t : wf_ty t = true -> roundtrip_ok t.
+Proof.
+  induction t using kty_ind2; intros Hwf v Hv; pose proof Hv as Hv0; unfold has_type in Hv;
+    destruct v; cbn [wt] in Hv; try discriminate; cbn [encode decode].
+  - reflexivity.
+  - destruct b; reflexivity.
+  - rewrite le_encode_length. cbn [Nat.eqb].
+    rewrite le_decode_encode by (apply is_scalar_lt in Hv; cbn; lia). now rewrite Hv.
+  - apply N.ltb_lt in Hv. rewrite le_encode_length, Nat.eqb_refl, le_decode_encode; auto.
+  - apply andb_true_iff in Hv as [H1 H2]. apply Z.leb_le in H1. apply Z.ltb_lt in H2.
+    destruct (signed_roundtrip w z (conj H1 H2)) as [Hlt Hs].
+    rewrite le_encode_length, Nat.eqb_refl, le_decode_encode by exact Hlt. now rewrite Hs.
+  - now rewrite utf8_roundtrip.
+  - reflexivity.
+  - apply andb_true_iff in Hv as [_ Hv]. now rewrite Hv.
+  - cbn. now rewrite bytes_eqb_refl.
+  - cbn. rewrite IHt; auto.
+  - destruct (wt_arr_inv _ _ _ Hv0) as (Hl & HF & Hs). cbn [encode] in Hs.
+    assert (Hrt : opt_all (map (decode t) (map (encode t) vs)) = Some vs).
+    { apply opt_all_map_some. intros x Hx. apply IHt; auto. rewrite Forall_forall in HF. auto. }
+    destruct (fixed_width t) as [w1|] eqn:E.
+    + assert (HFl : Forall (fun e => length e = w1) (map (encode t) vs)).
+      { apply Forall_map. eapply Forall_impl; [|exact HF]. intros x Hx. now apply encode_fixed_len. }
+      rewrite (length_concat_const _ w1) by assumption. rewrite map_length, Hl, Nat.eqb_refl.
+      rewrite <- (app_nil_r (concat _)). rewrite <- Hl at 1. rewrite <- (map_length (encode t) vs).
+      rewrite chunks_concat by assumption. now rewrite Hrt.
+    + rewrite <- Hl. rewrite <- (map_length (encode t) vs). rewrite arr_split_assemble by assumption.
+      now rewrite Hrt.
+  - destruct (wt_tup_inv _ _ Hv0) as (HF & Hs). cbn [encode] in Hs.
+    destruct (wf_tup_inv _ Hwf) as (Hne & Hwfs).
+    assert (HR : Forall roundtrip_ok ts).
+    { rewrite Forall_forall in *. intros x Hx. apply H; auto. }
+    assert (Hlen : length ts = length vs) by (eapply Forall2_length'; eauto).
+    rewrite tup_split_ok; auto.
+    + rewrite zipw_length by assumption. rewrite Nat.eqb_refl.
+      now rewrite opt_all_zipw_roundtrip.
+    + apply Forall2_fits; auto. apply Forall_forall. intros x _. apply encode_fixed_len.
+    + destruct ts; [congruence|]. destruct vs; [discriminate|]. discriminate.
+Qed.
+(* ================================================================ Key::compare = order of the values *)
+
+Definition cmp_ok (t : kty) : Prop :=
+  forall a b, has_type t a -> has_type t b -> kcompare t (encode t a) (encode t b) = vcompare t a b.
+
+Lemma lexc_map_encode t xs ys : cmp_ok t -> Forall (has_type t) xs -> Forall (has_type t) ys ->
+  lexc (kcompare t) (map (encode t) xs) (map (encode t) ys) = lexc (vcompare t) xs ys.
+Proof.
+  intros Hc HX. revert ys. induction HX as [|x xs Hx HX IH]; intros ys HY; destruct HY as [|y ys Hy HY]; cbn; auto.
+  rewrite (Hc x y) by assumption. destruct (vcompare t x y); auto.
+Qed.
+
+Lemma lexc3_zipw_encode ts xs ys : Forall cmp_ok ts -> Forall2 has_type ts xs -> Forall2 has_type ts ys ->
+  lexc3 kcompare ts (zipw encode ts xs) (zipw encode ts ys) = lexc3 vcompare ts xs ys.
+Proof.
+  intros HP HX. revert ys. induction HX as [|t x ts xs Hx HX IH]; intros ys HY; inversion HY; subst; cbn; auto.
+  inversion HP; subst. match goal with Hc : cmp_ok t |- _ => rewrite (Hc x y) by assumption end. destruct (vcompare t x y); auto.
+Qed.
+
+Lemma compare_is_value_order t : wf_ty t = true -> cmp_ok t.
+Proof.
+  induction t using kty_ind2; intros Hwf a b Ha Hb; pose proof Ha as Ha0; pose proof Hb as Hb0;
+    unfold has_type in Ha, Hb;
+    destruct a; cbn [wt] in Ha; try discriminate; destruct b; cbn [wt] in Hb; try discriminate;
+    cbn [encode kcompare vcompare].
+  - reflexivity.
+  - destruct b, b0; reflexivity.
+  - rewrite !firstn_all2 by (rewrite le_encode_length; lia).
+    apply is_scalar_lt in Ha, Hb.
+    rewrite !le_decode_encode; auto; cbn; lia.
+  - apply N.ltb_lt in Ha, Hb. rewrite !le_decode_encode; auto.
+  - apply andb_true_iff in Ha as [A1 A2]. apply Z.leb_le in A1. apply Z.ltb_lt in A2.
+    apply andb_true_iff in Hb as [B1 B2]. apply Z.leb_le in B1. apply Z.ltb_lt in B2.
+    destruct (signed_roundtrip w z (conj A1 A2)) as [Hlt1 Hs1].
+    destruct (signed_roundtrip w z0 (conj B1 B2)) as [Hlt2 Hs2].
+    rewrite !le_decode_encode by assumption. now rewrite Hs1, Hs2.
+  - now apply utf8_order.
+  - reflexivity.
+  - reflexivity.
+  - reflexivity.
+  - reflexivity.
+  - reflexivity.
+  - cbn. apply IHt; auto.
+  - destruct (wt_arr_inv _ _ _ Ha0) as (Hl1 & HF1 & Hs1). cbn [encode] in Hs1.
+    destruct (wt_arr_inv _ _ _ Hb0) as (Hl2 & HF2 & Hs2). cbn [encode] in Hs2.
+    specialize (IHt Hwf).
+    destruct (fixed_width t) as [w1|] eqn:E.
+    + assert (HFl : forall xs, Forall (has_type t) xs -> Forall (fun e => length e = w1) (map (encode t) xs)).
+      { intros xs HF. apply Forall_map. eapply Forall_impl; [|exact HF]. intros x Hx. now apply encode_fixed_len. }
+      rewrite <- (app_nil_r (concat (map (encode t) vs))), <- (app_nil_r (concat (map (encode t) vs0))).
+      rewrite <- Hl1 at 1. rewrite <- Hl2. rewrite <- (map_length (encode t) vs), <- (map_length (encode t) vs0).
+      rewrite !chunks_concat by auto. now apply lexc_map_encode.
+    + rewrite <- Hl1 at 1. rewrite <- Hl2. rewrite <- (map_length (encode t) vs), <- (map_length (encode t) vs0).
+      rewrite !arr_split_assemble by assumption. now apply lexc_map_encode.
+  - destruct (wt_tup_inv _ _ Ha0) as (HF1 & Hs1). cbn [encode] in Hs1.
+    destruct (wt_tup_inv _ _ Hb0) as (HF2 & Hs2). cbn [encode] in Hs2.
+    destruct (wf_tup_inv _ Hwf) as (Hne & Hwfs).
+    assert (HR : Forall cmp_ok ts).
+    { rewrite Forall_forall in *. intros x Hx. apply H; auto. }
+    assert (Hfl : Forall fixed_len_ok ts) by (apply Forall_forall; intros x _; apply encode_fixed_len).
+    assert (Hne' : forall xs, Forall2 has_type ts xs -> zipw encode ts xs <> []).
+    { intros xs HX. destruct HX; [congruence|discriminate]. }
+    rewrite !tup_split_ok; auto using Forall2_fits.
+    now apply lexc3_zipw_encode.
+Qed.
+(* ================================================================ the value order is a total order *)
+
+Section Lexc.
+  Context {A : Type} (f : A -> A -> comparison) (P : A -> Prop).
+  Hypothesis f_eq : forall x y, P x -> P y -> f x y = Eq -> x = y.
+  Hypothesis f_refl : forall x, P x -> f x x = Eq.
+  Hypothesis f_anti : forall x y, P x -> P y -> f y x = CompOpp (f x y).
+  Hypothesis f_trans : forall x y z, P x -> P y -> P z -> f x y = Lt -> f y z = Lt -> f x z = Lt.
+
+  Lemma lexc_eq xs ys : Forall P xs -> Forall P ys -> lexc f xs ys = Eq -> xs = ys.
+  Proof.
+    intros HX. revert ys. induction HX as [|x xs Hx HX IH]; intros ys HY; destruct HY as [|y ys Hy HY]; cbn; try discriminate; auto.
+    destruct (f x y) eqn:E; try discriminate. intros H. apply f_eq in E; auto. subst. f_equal. auto.
+  Qed.
+
+  Lemma lexc_refl xs : Forall P xs -> lexc f xs xs = Eq.
+  Proof. induction 1 as [|x xs Hx HX IH]; cbn; auto. now rewrite f_refl. Qed.
+
+  Lemma lexc_anti xs ys : Forall P xs -> Forall P ys -> lexc f ys xs = CompOpp (lexc f xs ys).
+  Proof.
+    intros HX. revert ys. induction HX as [|x xs Hx HX IH]; intros ys HY; destruct HY as [|y ys Hy HY]; cbn; auto.
+    rewrite (f_anti x y) by assumption. destruct (f x y); cbn; auto.
+  Qed.
+
+  Lemma lexc_trans xs ys zs : Forall P xs -> Forall P ys -> Forall P zs ->
+    lexc f xs ys = Lt -> lexc f ys zs = Lt -> lexc f xs zs = Lt.
+  Proof.
+    intros HX. revert ys zs. induction HX as [|x xs Hx HX IH]; intros ys zs HY HZ;
+      destruct HY as [|y ys Hy HY]; destruct HZ as [|z zs Hz HZ]; cbn; try discriminate; auto.
+    destruct (f x y) eqn:E1; try discriminate; destruct (f y z) eqn:E2; try discriminate; intros H1 H2.
+    - apply f_eq in E1; auto. apply f_eq in E2; auto. subst. rewrite f_refl by assumption. eauto.
+    - apply f_eq in E1; auto. subst. now rewrite E2.
+    - apply f_eq in E2; auto. subst. now rewrite E1.
+    - now rewrite (f_trans x y z).
+  Qed.
+End Lexc.
+
+Record ord_ok (t : kty) : Prop := {
+  o_eq : forall a b, has_type t a -> has_type t b -> vcompare t a b = Eq -> a = b;
+  o_refl : forall a, has_type t a -> vcompare t a a = Eq;
+  o_anti : forall a b, has_type t a -> has_type t b -> vcompare t b a = CompOpp (vcompare t a b);
+  o_trans : forall a b c, has_type t a -> has_type t b -> has_type t c ->
+            vcompare t a b = Lt -> vcompare t b c = Lt -> vcompare t a c = Lt }.
+
+Lemma N_trans_lt x y z : (x ?= y) = Lt -> (y ?= z) = Lt -> (x ?= z) = Lt.
+Proof. rewrite !N.compare_lt_iff. lia. Qed.
+
+Lemma Ntrue : forall l : list N, Forall (fun _ => True) l.
+Proof. intros l. apply Forall_forall. auto. Qed.
+
+(* tuples: position-wise *)
+Lemma lexc3_eq ts xs ys : Forall ord_ok ts -> Forall2 has_type ts xs -> Forall2 has_type ts ys ->
+  lexc3 vcompare ts xs ys = Eq -> xs = ys.
+Proof.
+  intros HP HX. revert ys. induction HX as [|t x ts xs Hx HX IH]; intros ys HY; inversion HY; subst; cbn; auto.
+  inversion HP; subst.
+  destruct (vcompare t x y) eqn:E; try discriminate. intros H.
+  apply (o_eq t) in E; auto. subst. f_equal. auto.
+Qed.
+
+Lemma lexc3_refl ts xs : Forall ord_ok ts -> Forall2 has_type ts xs -> lexc3 vcompare ts xs xs = Eq.
+Proof.
+  intros HP HX. induction HX as [|t x ts xs Hx HX IH]; cbn; auto.
+  inversion HP; subst. rewrite (o_refl t) by assumption. auto.
+Qed.
+
+Lemma lexc3_anti ts xs ys : Forall ord_ok ts -> Forall2 has_type ts xs -> Forall2 has_type ts ys ->
+  lexc3 vcompare ts ys xs = CompOpp (lexc3 vcompare ts xs ys).
+Proof.
+  intros HP HX. revert ys. induction HX as [|t x ts xs Hx HX IH]; intros ys HY; inversion HY; subst; cbn; auto.
+  inversion HP; subst.
+  match goal with Ho : ord_ok t |- _ => rewrite (o_anti t Ho x y) by assumption end. destruct (vcompare t x y); cbn; auto.
+Qed.
+
+Lemma lexc3_trans ts xs ys zs : Forall ord_ok ts ->
+  Forall2 has_type ts xs -> Forall2 has_type ts ys -> Forall2 has_type ts zs ->
+  lexc3 vcompare ts xs ys = Lt -> lexc3 vcompare ts ys zs = Lt -> lexc3 vcompare ts xs zs = Lt.
+Proof.
+  intros HP HX. revert ys zs. induction HX as [|t x ts xs Hx HX IH]; intros ys zs HY HZ;
+    inversion HY; subst; inversion HZ; subst; cbn; try discriminate.
+  inversion HP; subst. rename y0 into z.
+  destruct (vcompare t x y) eqn:E1; try discriminate; destruct (vcompare t y z) eqn:E2; try discriminate; intros G1 G2.
+  - apply (o_eq t) in E1; auto. apply (o_eq t) in E2; auto. subst. rewrite (o_refl t) by assumption. eauto.
+  - apply (o_eq t) in E1; auto. subst. now rewrite E2.
+  - apply (o_eq t) in E2; auto. subst. now rewrite E1.
+  - match goal with Ho : ord_ok t |- _ => now rewrite (o_trans t Ho x y z) end.
+Qed.
+
+Lemma order_ok t : ord_ok t.
+Proof.
+  induction t using kty_ind2.
+  - (* unit *) split; intros; repeat match goal with H : has_type _ ?v |- _ => unfold has_type in H; destruct v; cbn [wt] in H; try discriminate end; cbn in *; congruence.
+  - (* bool *) split; intros; repeat match goal with H : has_type _ ?v |- _ => unfold has_type in H; destruct v; cbn [wt] in H; try discriminate end;
+      repeat match goal with b : bool |- _ => destruct b end; cbn in *; congruence.
+  - (* char *) split; intros; repeat match goal with H : has_type _ ?v |- _ => unfold has_type in H; destruct v; cbn [wt] in H; try discriminate end; cbn [vcompare] in *.
+    + f_equal. now apply N.compare_eq.
+    + apply N.compare_refl.
+    + apply N.compare_antisym.
+    + eapply N_trans_lt; eauto.
+  - (* unsigned *) split; intros; repeat match goal with H : has_type _ ?v |- _ => unfold has_type in H; destruct v; cbn [wt] in H; try discriminate end; cbn [vcompare] in *.
+    + f_equal. now apply N.compare_eq.
+    + apply N.compare_refl.
+    + apply N.compare_antisym.
+    + eapply N_trans_lt; eauto.
+  - (* signed *) split; intros; repeat match goal with H : has_type _ ?v |- _ => unfold has_type in H; destruct v; cbn [wt] in H; try discriminate end; cbn [vcompare] in *.
+    + f_equal. now apply Z.compare_eq.
+    + apply Z.compare_refl.
+    + apply Z.compare_antisym.
+    + rewrite Z.compare_lt_iff in *. lia.
+  - (* str *) split; intros; repeat match goal with H : has_type _ ?v |- _ => unfold has_type in H; destruct v; cbn [wt] in H; try discriminate end; cbn [vcompare] in *.
+    + f_equal. eapply (lexc_eq N.compare (fun _ => True)); eauto using Ntrue. intros. now apply N.compare_eq.
+    + eapply (lexc_refl N.compare (fun _ => True)); eauto using Ntrue. intros. apply N.compare_refl.
+    + eapply (lexc_anti N.compare (fun _ => True)); eauto using Ntrue. intros. apply N.compare_antisym.
+    + eapply (lexc_trans N.compare (fun _ => True)); eauto using Ntrue.
+      * intros. now apply N.compare_eq.
+      * intros. apply N.compare_refl.
+      * intros. eapply N_trans_lt; eauto.
+  - (* bytes *) split; intros; repeat match goal with H : has_type _ ?v |- _ => unfold has_type in H; destruct v; cbn [wt] in H; try discriminate end; cbn [vcompare] in *.
+    + f_equal. now apply lex_cmp_eq.
+    + apply lex_cmp_refl.
+    + apply lex_cmp_antisym.
+    + eapply lex_cmp_trans_lt; eauto.
+  - (* fixed bytes *) split; intros; repeat match goal with H : has_type _ ?v |- _ => unfold has_type in H; destruct v; cbn [wt] in H; try discriminate end; cbn [vcompare] in *.
+    + f_equal. now apply lex_cmp_eq.
+    + apply lex_cmp_refl.
+    + apply lex_cmp_antisym.
+    + eapply lex_cmp_trans_lt; eauto.
+  - (* option *) destruct IHt as [Ieq Irefl Ianti Itrans].
+    split; intros; repeat match goal with H : has_type _ ?v |- _ => unfold has_type in H; destruct v; cbn [wt] in H; try discriminate end; cbn [vcompare] in *;
+      try discriminate; try reflexivity.
+    + f_equal. now apply Ieq.
+    + now apply Irefl.
+    + now apply Ianti.
+    + match goal with H1 : vcompare t ?x ?y = Lt, H2 : vcompare t ?y ?z = Lt |- _ => apply (Itrans x y z); assumption end.
+  - (* array *) destruct IHt as [Ieq Irefl Ianti Itrans].
+    split; intros;
+      repeat match goal with H : has_type _ ?v |- _ =>
+        let H' := fresh "T" in pose proof H as H'; unfold has_type in H; destruct v; cbn [wt] in H; try discriminate; clear H;
+        apply wt_arr_inv in H'; destruct H' as (? & ? & ?) end; cbn [vcompare] in *.
+    + f_equal. eapply (lexc_eq (vcompare t) (has_type t)); eauto.
+    + eapply (lexc_refl (vcompare t) (has_type t)); eauto.
+    + eapply (lexc_anti (vcompare t) (has_type t)); eauto.
+    + match goal with H1 : lexc _ ?x ?y = Lt, H2 : lexc _ ?y ?z = Lt |- _ => apply (lexc_trans (vcompare t) (has_type t) Ieq Irefl Itrans x y z); assumption end.
+  - (* tuple *)
+    split; intros;
+      repeat match goal with H : has_type _ ?v |- _ =>
+        let H' := fresh "T" in pose proof H as H'; unfold has_type in H; destruct v; cbn [wt] in H; try discriminate; clear H;
+        apply wt_tup_inv in H'; destruct H' as (? & ?) end; cbn [vcompare] in *.
+    + f_equal. eapply lexc3_eq; eauto.
+    + eapply lexc3_refl; eauto.
+    + eapply lexc3_anti; eauto.
+    + match goal with H1 : lexc3 _ _ ?x ?y = Lt, H2 : lexc3 _ _ ?y ?z = Lt |- _ => apply (lexc3_trans ts x y z); assumption end.
+Qed.
+(* ================================================================ min_encoded_key *)
+
+Lemma lexc_nil_le {A} (f : A -> A -> comparison) l : lexc f [] l <> Gt.
+Proof. destruct l; cbn; discriminate. Qed.
+Lemma lex_cmp_nil_le l : lex_cmp [] l <> Gt.
+Proof. destruct l; cbn; discriminate. Qed.
+
+Lemma min_key_valid t : forall m, wf_ty t = true -> min_encoded_key t = Some m -> size_ok m = true ->
+  exists mv, has_type t mv /\ encode t mv = m /\ forall v, has_type t v -> vcompare t mv v <> Gt.
+Proof.
+  induction t using kty_ind2; intros m Hwf Hm Hs; cbn [min_encoded_key] in Hm; try discriminate.
+  - injection Hm as <-. exists (VStr []). repeat split. intros v Hv.
+    unfold has_type in Hv. destruct v; cbn [wt] in Hv; try discriminate. cbn. apply (lexc_nil_le N.compare).
+  - injection Hm as <-. exists (VBytes []). repeat split. intros v Hv.
+    unfold has_type in Hv. destruct v; cbn [wt] in Hv; try discriminate. cbn. apply lex_cmp_nil_le.
+  - injection Hm as <-. exists VNone. repeat split. intros v Hv.
+    unfold has_type in Hv. destruct v; cbn [wt] in Hv; try discriminate; cbn; discriminate.
+  - destruct ts as [|t1 [|t2 ts]]; try discriminate.
+    inversion H as [|? ? IH1 _]; subst.
+    destruct (wf_tup_inv _ Hwf) as (_ & Hwfs). inversion Hwfs; subst.
+    destruct (IH1 m) as (mv & Hmv & He & Hle); auto.
+    exists (VList [mv]).
+    assert (Henc : encode (TTup [t1]) (VList [mv]) = m) by (cbn; now rewrite app_nil_r).
+    repeat split.
+    + unfold has_type. cbn [wt]. rewrite Henc, Hs. cbn. now rewrite Hmv.
+    + exact Henc.
+    + intros v Hv. pose proof Hv as Hv0. unfold has_type in Hv. destruct v; cbn [wt] in Hv; try discriminate.
+      destruct (wt_tup_inv _ _ Hv0) as (HF & _). inversion HF as [|? y ? ys Hy HF']; subst. inversion HF'; subst.
+      cbn. specialize (Hle y Hy). destruct (vcompare t1 mv y); auto.
+Qed.
+
+(* ================================================================ separators *)
+
+Definition sep_ok (t : kty) : Prop :=
+  forall a b, has_type t a -> has_type t b -> vcompare t a b = Lt ->
+  let s := separator t (encode t a) (encode t b) in
+  exists sv, has_type t sv /\ encode t sv = s /\ vcompare t a sv <> Gt /\ vcompare t sv b = Lt
+             /\ (length s <= length (encode t a))%nat.
+
+(* returning `left` is always valid *)
+Lemma sep_left t a b : has_type t a -> vcompare t a b = Lt ->
+  exists sv, has_type t sv /\ encode t sv = encode t a /\ vcompare t a sv <> Gt /\ vcompare t sv b = Lt
+             /\ (length (encode t a) <= length (encode t a))%nat.
+Proof.
+  intros Ha Hlt. exists a. repeat split; auto.
+  rewrite (o_refl t (order_ok t)) by assumption. discriminate.
+Qed.
+
+(* <&[u8]>::separator *)
 Lemma firstn_S_cpl_between l r :
   lex_cmp l r = Lt ->
   (S (common_prefix_len l r) < length r)%nat ->
@@ -41,49 +676,210 @@ Proof.
   intros H. apply andb_true_iff in H as [H1 H2]. now rewrite H1, IH.
 Qed.
 
-Lemma separator_valid t a b :
-  has_type t a -> has_type t b -> vcompare t a b = Lt ->
-  let s := separator t (encode t a) (encode t b) in
-  exists sv, has_type t sv /\ encode t sv = s /\ vcompare t a sv <> Gt /\ vcompare t sv b = Lt
-             /\ (length s <= length (encode t a))%nat.
+Lemma In_blen_concat (e : bytes) es : In e es -> blen e <= blen (concat es).
 Proof.
-  destruct t, a as [x|x], b as [y|y]; cbn [has_type]; try tauto; intros Ha Hb Hlt; cbn zeta.
-  - exists (VU64 x). cbn [separator encode has_type vcompare]. repeat split; auto.
-    rewrite N.compare_refl; discriminate.
-  - cbn [separator encode vcompare] in *.
+  induction es as [|x es IH]; cbn [In concat]; [tauto|]. rewrite blen_app. intros [->|H]; [lia|].
+  specialize (IH H). lia.
+Qed.
+
+(* the element list of the array separator *)
+Lemma arr_sep_elems_ok t xs : sep_ok t -> cmp_ok t -> wf_ty t = true ->
+  forall ys, Forall (has_type t) xs -> Forall (has_type t) ys -> length xs = length ys ->
+  lexc (vcompare t) xs ys = Lt ->
+  exists els,
+    arr_sep_elems (kcompare t) (separator t) (min_encoded_key t) (map (encode t) xs) (map (encode t) ys) = Some els /\
+    length els = length xs /\
+    (Forall (fun e => size_ok e = true) els ->
+     exists svs, Forall (has_type t) svs /\ map (encode t) svs = els /\
+                 lexc (vcompare t) xs svs <> Gt /\ lexc (vcompare t) svs ys = Lt).
+Proof.
+  intros Hsep Hcmp Hwf. pose proof (order_ok t) as [Oeq Orefl Oanti Otrans].
+  induction xs as [|x xs IH]; intros ys HX HY Hlen Hlt; destruct ys as [|y ys]; cbn [lexc] in Hlt; try discriminate.
+  cbn [length] in Hlen. apply Nat.succ_inj in Hlen.
+  pose proof (Forall_inv HX) as Hx; pose proof (Forall_inv_tail HX) as HX'.
+  pose proof (Forall_inv HY) as Hy; pose proof (Forall_inv_tail HY) as HY'.
+  cbn [map arr_sep_elems]. rewrite (Hcmp x y) by assumption.
+  destruct (vcompare t x y) eqn:E; try discriminate.
+  - (* equal elements: keep left's, go on *)
+    apply Oeq in E; auto. subst y.
+    destruct (IH ys HX' HY' Hlen Hlt) as (els & He & Hl & Hs). rewrite He.
+    exists (encode t x :: els). cbn [option_map length]. repeat split; auto.
+    intros Hsz. pose proof (Forall_inv_tail Hsz) as Hsz'.
+    destruct (Hs Hsz') as (svs & S1 & S2 & S3 & S4).
+    exists (x :: svs). cbn [map lexc]. rewrite Orefl by assumption. repeat split; auto. now rewrite S2.
+  - (* first differing element *)
+    destruct (Hsep x y Hx Hy E) as (sv & Hsv & Hse & Hle & Hlt' & Hsl). cbn zeta in *.
+    rewrite <- Hse. rewrite (Hcmp x sv) by assumption.
+    eexists. split; [reflexivity|]. split; [destruct (_ && _)%bool; [destruct (min_encoded_key t)|]; cbn [length]; now rewrite ?map_length|].
+    intros Hsz.
+    destruct ((match map (encode t) xs with [] => false | _ => true end) && (match vcompare t x sv with Lt => true | _ => false end))%bool eqn:R.
+    + apply andb_true_iff in R as [R1 R2].
+      destruct (vcompare t x sv) eqn:Exs; try discriminate.
+      destruct (min_encoded_key t) as [m|] eqn:Em.
+      * (* tail replaced by the minimum *)
+        assert (Hm : size_ok m = true).
+        { pose proof (Forall_inv_tail Hsz) as Hsz'. destruct xs as [|x2 xs]; [discriminate|]. cbn [map] in Hsz'. exact (Forall_inv Hsz'). }
+        destruct (min_key_valid t m Hwf Em Hm) as (mv & Hmv & Hme & _).
+        exists (sv :: map (fun _ => mv) xs). cbn [map lexc]. rewrite Exs, Hlt'.
+        repeat split; try discriminate.
+        -- constructor; auto. apply Forall_forall. intros z Hz. apply in_map_iff in Hz as (? & <- & _). exact Hmv.
+        -- f_equal. rewrite !map_map. apply map_ext. intros _. exact Hme.
+      * exists (sv :: xs). cbn [map lexc]. rewrite Exs, Hlt'. repeat split; auto; try discriminate.
+    + exists (sv :: xs). cbn [map lexc]. rewrite Hlt'. repeat split; auto.
+      destruct (vcompare t x sv); try congruence.
+      rewrite (lexc_refl (vcompare t) (has_type t)); auto; try discriminate.
+Qed.
+
+Lemma arr_split_enc n t xs : length xs = n -> size_ok (arr_assemble (map (encode t) xs)) = true ->
+  arr_split n (arr_assemble (map (encode t) xs)) = Some (map (encode t) xs).
+Proof. intros Hl Hs. pose proof (arr_split_assemble _ Hs) as X. now rewrite map_length, Hl in X. Qed.
+
+Lemma separator_valid t : wf_ty t = true -> sep_ok t.
+Proof.
+  induction t using kty_ind2; intros Hwf a b Ha Hb Hlt;
+    try (cbn [separator]; now apply sep_left).
+  - (* &str *)
+    pose proof Ha as Ha0; pose proof Hb as Hb0. unfold has_type in Ha, Hb.
+    destruct a; cbn [wt] in Ha; try discriminate; destruct b; cbn [wt] in Hb; try discriminate.
+    cbn [vcompare] in Hlt. cbn [separator encode]. cbn zeta.
+    destruct (str_sep_valid s s0 Ha Hb Hlt) as (sv & S1 & S2 & S3 & S4 & S5).
+    exists (VStr sv). cbn [encode vcompare]. repeat split; auto.
+  - (* &[u8] *)
+    pose proof Ha as Ha0; pose proof Hb as Hb0. unfold has_type in Ha, Hb.
+    destruct a as [| | | | | |x| | |]; cbn [wt] in Ha; try discriminate; destruct b as [| | | | | |y| | |]; cbn [wt] in Hb; try discriminate.
+    cbn [vcompare] in Hlt. cbn [separator encode]. cbn zeta. unfold bytes_sep.
     destruct (andb _ _) eqn:E.
     + apply andb_true_iff in E as [E1 E2]. apply Nat.ltb_lt in E1, E2.
       exists (VBytes (firstn (S (common_prefix_len x y)) y)).
-      cbn [has_type encode vcompare].
+      cbn [encode vcompare].
       pose proof (firstn_S_cpl_between x y Hlt E2) as [H1 H2].
       repeat split; auto.
-      * now apply all_bytes_firstn.
+      * unfold has_type. cbn [wt]. now apply all_bytes_firstn.
       * rewrite firstn_length. lia.
-    + exists (VBytes x). cbn [has_type encode vcompare]. repeat split; auto.
+    + exists (VBytes x). cbn [encode vcompare]. repeat split; auto.
       rewrite lex_cmp_refl; discriminate.
+  - (* Option<T> *)
+    cbn [separator]. destruct (fixed_width t) eqn:Efw; [now apply sep_left|].
+    pose proof Ha as Ha0; pose proof Hb as Hb0. unfold has_type in Ha, Hb.
+    destruct a; cbn [wt] in Ha; try discriminate; destruct b; cbn [wt] in Hb; try discriminate;
+      cbn [vcompare] in Hlt; try discriminate.
+    + (* None < Some: left is the tag alone *)
+      pose proof (sep_left (TOpt t) VNone (VSome b) Ha0 eq_refl) as X.
+      cbn [encode] in *. rewrite Efw in *. cbn [N.eqb]. exact X.
+    + cbn [encode tl]. cbn [N.eqb Pos.eqb].
+      destruct (IHt Hwf a b Ha Hb Hlt) as (sv & S1 & S2 & S3 & S4 & S5). cbn zeta in *.
+      destruct (Nat.leb _ _) eqn:G.
+      * pose proof (sep_left (TOpt t) (VSome a) (VSome b) Ha0 Hlt) as X. cbn [encode] in X. exact X.
+      * apply Nat.leb_gt in G. exists (VSome sv). cbn [encode vcompare]. rewrite S2. repeat split; auto.
+        cbn [length] in *. lia.
+  - (* [T; N] *)
+    cbn [separator]. destruct (fixed_width t) eqn:Efw; [now apply sep_left|].
+    pose proof Ha as Ha0; pose proof Hb as Hb0. unfold has_type in Ha, Hb.
+    destruct a as [| | | | | | | | |xs]; cbn [wt] in Ha; try discriminate; destruct b as [| | | | | | | | |ys]; cbn [wt] in Hb; try discriminate.
+    destruct (wt_arr_inv _ _ _ Ha0) as (Hl1 & HF1 & Hs1).
+    destruct (wt_arr_inv _ _ _ Hb0) as (Hl2 & HF2 & Hs2).
+    cbn [vcompare] in Hlt.
+    cbn [encode] in *. rewrite Efw in *.
+    rewrite !arr_split_enc by assumption.
+    destruct (arr_sep_elems_ok t xs (IHt Hwf) (compare_is_value_order t Hwf) Hwf ys HF1 HF2 ltac:(lia) Hlt) as (els & He & Hle & Hs).
+    rewrite He. cbn zeta.
+    destruct (Nat.leb _ _) eqn:G.
+    + apply (sep_left (TArr n t) (VList xs) (VList ys)) in Hlt; auto. cbn [encode] in Hlt. now rewrite Efw in Hlt.
+    + apply Nat.leb_gt in G.
+      assert (Hsz : size_ok (arr_assemble els) = true).
+      { unfold size_ok in *. apply N.ltb_lt. apply N.ltb_lt in Hs1. unfold blen in *.
+        rewrite arr_assemble_length. rewrite Hle, Hl1. lia. }
+      destruct Hs as (svs & S1 & S2 & S3 & S4).
+      { apply Forall_forall. intros e He'. unfold size_ok in *. apply N.ltb_lt. apply N.ltb_lt in Hsz.
+        pose proof (In_blen_concat e els He'). unfold arr_assemble in Hsz. rewrite blen_app in Hsz. lia. }
+      assert (Hlen : length svs = n) by (rewrite <- (map_length (encode t) svs), S2; lia).
+      exists (VList svs). cbn [encode vcompare]. rewrite ?Efw, S2.
+      repeat split; auto.
+      * unfold has_type. cbn [wt encode]. rewrite Efw, S2, Hsz, Hlen, Nat.eqb_refl. cbn [andb].
+        rewrite andb_true_r. apply forallb_forall. rewrite Forall_forall in S1. exact S1.
+      * rewrite arr_assemble_length. rewrite Hle, Hl1. lia.
 Qed.
+(* ================================================================ consequences *)
 
 Lemma vcompare_eq_encode t a b :
   has_type t a -> has_type t b -> vcompare t a b = Eq -> encode t a = encode t b.
+Proof. intros Ha Hb H. now rewrite (o_eq t (order_ok t) a b Ha Hb H). Qed.
+
+(* a <= b, b < c  ->  a < c     and     a < b, b <= c -> a < c *)
+Lemma vcompare_le_lt t a b c : has_type t a -> has_type t b -> has_type t c ->
+  vcompare t a b <> Gt -> vcompare t b c = Lt -> vcompare t a c = Lt.
 Proof.
-  destruct t, a as [x|x], b as [y|y]; cbn [has_type]; try tauto; intros Ha Hb H; cbn in H |- *.
-  - apply N.compare_eq in H. now subst.
-  - now apply lex_cmp_eq.
+  intros Ha Hb Hc H1 H2. destruct (order_ok t) as [Oeq _ _ Otr].
+  destruct (vcompare t a b) eqn:E; try congruence.
+  - apply Oeq in E; auto. now subst.
+  - apply (Otr a b c); auto.
 Qed.
 
-Lemma vcompare_antisym t a b :
-  has_type t a -> has_type t b -> vcompare t b a = CompOpp (vcompare t a b).
+Lemma vcompare_lt_le t a b c : has_type t a -> has_type t b -> has_type t c ->
+  vcompare t a b = Lt -> vcompare t b c <> Gt -> vcompare t a c = Lt.
 Proof.
-  destruct t, a as [x|x], b as [y|y]; cbn [has_type]; try tauto; intros _ _; cbn.
-  - apply N.compare_antisym.
-  - apply lex_cmp_antisym.
+  intros Ha Hb Hc H1 H2. destruct (order_ok t) as [Oeq _ _ Otr].
+  destruct (vcompare t b c) eqn:E; try congruence.
+  - apply Oeq in E; auto. now subst.
+  - apply (Otr a b c); auto.
 Qed.
 
-Lemma vcompare_trans t a b c :
-  has_type t a -> has_type t b -> has_type t c ->
-  vcompare t a b = Lt -> vcompare t b c = Lt -> vcompare t a c = Lt.
+Lemma vcompare_le_le t a b c : has_type t a -> has_type t b -> has_type t c ->
+  vcompare t a b <> Gt -> vcompare t b c <> Gt -> vcompare t a c <> Gt.
 Proof.
-  destruct t, a as [x|x], b as [y|y], c as [z|z]; cbn [has_type]; try tauto; intros _ _ _; cbn.
-  - rewrite !N.compare_lt_iff. lia.
-  - apply lex_cmp_trans_lt.
+  intros Ha Hb Hc H1 H2. destruct (order_ok t) as [Oeq _ _ Otr].
+  destruct (vcompare t a b) eqn:E; try congruence.
+  - apply Oeq in E; auto. now subst.
+  - rewrite (vcompare_lt_le t a b c); auto; discriminate.
+Qed.
+
+(* the separator is an encoding Key::compare / from_bytes accept *)
+Lemma separator_decodes t a b : wf_ty t = true ->
+  has_type t a -> has_type t b -> vcompare t a b = Lt ->
+  exists sv, has_type t sv /\ decode t (separator t (encode t a) (encode t b)) = Some sv.
+Proof.
+  intros Hwf Ha Hb Hlt. destruct (separator_valid t Hwf a b Ha Hb Hlt) as (sv & S1 & S2 & _).
+  exists sv. split; auto. cbn zeta in S2. rewrite <- S2. now apply roundtrip.
+Qed.
+
+(* lookups route correctly: with the separator s between a child whose greatest key is a and the next
+   child whose least key is b, every key k <= a compares <= s and every key k >= b compares > s,
+   under the byte-level Key::compare *)
+Lemma routing_ok t a b k : wf_ty t = true ->
+  has_type t a -> has_type t b -> has_type t k -> vcompare t a b = Lt ->
+  let s := separator t (encode t a) (encode t b) in
+  (vcompare t k a <> Gt -> kcompare t (encode t k) s <> Gt) /\
+  (vcompare t b k <> Gt -> kcompare t s (encode t k) = Lt).
+Proof.
+  intros Hwf Ha Hb Hk Hlt. cbn zeta.
+  destruct (separator_valid t Hwf a b Ha Hb Hlt) as (sv & S1 & S2 & S3 & S4 & _). cbn zeta in S2.
+  rewrite <- S2. rewrite !compare_is_value_order by assumption. split; intros H.
+  - apply (vcompare_le_le t k a sv); auto.
+  - apply (vcompare_lt_le t sv b k); auto.
+Qed.
+
+(* sorting by Key::compare on encodings = sorting by value *)
+Lemma kcompare_trans t a b c : wf_ty t = true -> has_type t a -> has_type t b -> has_type t c ->
+  kcompare t (encode t a) (encode t b) = Lt -> kcompare t (encode t b) (encode t c) = Lt ->
+  kcompare t (encode t a) (encode t c) = Lt.
+Proof.
+  intros Hwf Ha Hb Hc. rewrite !compare_is_value_order by assumption. apply (o_trans t (order_ok t)); auto.
+Qed.
+
+(* branch_separator: fixed width types keep the whole key, the others use Key::separator *)
+Lemma branch_separator_fixed t l r w : fixed_width t = Some w -> branch_separator t l r = l.
+Proof. unfold branch_separator. now intros ->. Qed.
+
+Lemma branch_separator_valid t : wf_ty t = true ->
+  forall a b, has_type t a -> has_type t b -> vcompare t a b = Lt ->
+  let s := branch_separator t (encode t a) (encode t b) in
+  exists sv, has_type t sv /\ encode t sv = s /\ vcompare t a sv <> Gt /\ vcompare t sv b = Lt
+             /\ (length s <= length (encode t a))%nat
+             /\ (forall w, fixed_width t = Some w -> length s = w).
+Proof.
+  intros Hwf a b Ha Hb Hlt. unfold branch_separator. destruct (fixed_width t) as [w|] eqn:E.
+  - destruct (sep_left t a b Ha Hlt) as (sv & S1 & S2 & S3 & S4 & S5). exists sv. cbn zeta.
+    repeat split; auto. intros w' Hw'. injection Hw' as <-. now apply encode_fixed_len.
+  - destruct (separator_valid t Hwf a b Ha Hb Hlt) as (sv & S1 & S2 & S3 & S4 & S5). exists sv. cbn zeta in *.
+    repeat split; auto. discriminate.
 Qed.
